@@ -116,7 +116,7 @@ def rule_R2(ctx, prj, w):
                 ctx.viol("R2", f"{key}/inverted", f.site(g.test), "a file is checked only if it IS excluded")
             elif kind.startswith("other:"):
                 t = unparse(g.test)
-                allowed = ("is_absolute()" in t and f is hf) or "is_file()" in t or "is_dir()" in t
+                allowed = ("is_absolute()" in t and f == hf) or "is_file()" in t or "is_dir()" in t
                 if not allowed:
                     ctx.viol("R2", f"{key}/extra-filter", f.site(g.test),
                              f"files are additionally filtered by `{'' if g.polarity else 'not '}{t[:80]}` before check_file: check skips "
